@@ -132,7 +132,7 @@ Qed.
 
 Lemma int_type_sound cs z :
   in_i128 z -> Forall (fun c => permits c z) cs -> fits (int_type cs) z.
-Proof. intros Hz H. unfold int_type. apply fold_sound; [exact Hz | exact I | exact H]. Qed.
+Proof. intros Hz H. unfold int_type. destruct (last_extensible cs); [exact I|]. apply fold_sound; [exact Hz | exact I | exact H]. Qed.
 
 Lemma fold_fixed cs acc :
   fold_left (fun acc c => max_restrictive (integer_constraints c) acc) cs acc <> Unbounded ->
@@ -149,8 +149,11 @@ Proof.
     + right. right. exact H.
 Qed.
 
-Lemma int_type_fixed_only_if cs : int_type cs <> Unbounded -> Exists finite_nonext cs.
-Proof. intro H. apply fold_fixed in H. destruct H as [H|H]; [congruence | exact H]. Qed.
+Lemma int_type_fixed_only_if cs : int_type cs <> Unbounded -> Exists finite_nonext cs /\ last_extensible cs = false.
+Proof.
+  unfold int_type. destruct (last_extensible cs); [congruence|]. intro H. split; [|reflexivity].
+  apply fold_fixed in H. destruct H as [H|H]; [congruence | exact H].
+Qed.
 
 Lemma fitsb_fits t z : fitsb t z = true <-> fits t z.
 Proof.
